@@ -79,6 +79,8 @@ func runC15(c *Ctx) {
 				sortCalls = append(sortCalls, e)
 			case e.Kind == "call" && e.Name == "sort.Reverse":
 				revCalls = append(revCalls, e)
+			case e.Kind == "mkclosure":
+				// a comparison closure wrapped around less: examined below
 			default:
 				other = append(other, e)
 			}
@@ -111,6 +113,7 @@ func runC15(c *Ctx) {
 		tn := arg.Sym
 		// the adapter must wrap param 0 (and param 1 as less for Func variants)
 		wrapsSlice, wrapsLess := false, !row.fn
+		flipped := false
 		if isParam(ad, 0) {
 			wrapsSlice = true
 		}
@@ -121,6 +124,26 @@ func runC15(c *Ctx) {
 				}
 				if isParam(a, 1) {
 					wrapsLess = true
+				}
+				if a.Op == "closure" {
+					// func(a, b) bool { return less(b, a) } (flipped) or less(a, b) (plain)
+					for j := range p.Events {
+						if p.Events[j].Kind == "mkclosure" && p.Events[j].Val.Key() == a.Key() {
+							cp := c.An.ClosurePaths(&p.Events[j])
+							if cp.Unproven == "" && len(cp.Paths) == 1 && len(cp.Paths[0].Rets) == 1 && len(cp.Paths[0].Events) == 1 {
+								r := cp.Paths[0].Rets[0]
+								x := &Term{Op: "param", N: 0, Fn: p.Events[j].SSAFn}
+								y := &Term{Op: "param", N: 1, Fn: p.Events[j].SSAFn}
+								if r.Op == "call" && r.Sym == "dyn" && len(r.Args) == 3 && isParam(r.Args[0], 1) {
+									if r.Args[1].Key() == y.Key() && r.Args[2].Key() == x.Key() {
+										wrapsLess, flipped = true, true
+									} else if r.Args[1].Key() == x.Key() && r.Args[2].Key() == y.Key() {
+										wrapsLess = true
+									}
+								}
+							}
+						}
+					}
 				}
 			}
 		}
@@ -146,7 +169,10 @@ func runC15(c *Ctx) {
 		}
 		net := dir
 		if nrev%2 == 1 {
-			net = map[string]string{"asc": "desc", "desc": "asc"}[dir]
+			net = map[string]string{"asc": "desc", "desc": "asc"}[net]
+		}
+		if flipped {
+			net = map[string]string{"asc": "desc", "desc": "asc"}[net]
 		}
 		want := "asc"
 		if row.desc {
@@ -255,10 +281,28 @@ func runC15(c *Ctx) {
 				R.Held(rule, fi.Name, "predicate", c.pos(fi), "sort.Search(len(slice), slice[i] >= target) under all orderings")
 			}
 		} else {
-			ok := len(cp.Paths) == 1 && len(cp.Paths[0].Rets) == 1
-			if ok {
-				r := NormRel(cp.Paths[0].Rets[0], true)
-				ok = r.Op == "false" && r.A.Op == "call" && r.A.Sym == "dyn" && len(r.A.Args) == 2 && isParam(r.A.Args[0], 1) && r.A.Args[1].Key() == elem.Key()
+			isLessCall := func(t *Term) bool {
+				return t.Op == "call" && t.Sym == "dyn" && len(t.Args) == 2 && isParam(t.Args[0], 1) && t.Args[1].Key() == elem.Key()
+			}
+			ok := len(cp.Paths) >= 1
+			for _, q := range cp.Paths {
+				if len(q.Rets) != 1 {
+					ok = false
+					continue
+				}
+				if len(q.Conds) == 0 {
+					r := NormRel(q.Rets[0], true)
+					if !(r.Op == "false" && isLessCall(r.A)) {
+						ok = false
+					}
+					continue
+				}
+				for _, cd := range q.Conds {
+					t, pol := stripNot(cd.T, cd.Pol)
+					if !isLessCall(t) || !q.Rets[0].IsConst(fmt.Sprint(!pol)) {
+						ok = false
+					}
+				}
 			}
 			R.Decide(ok, rule, fi.Name, "predicate", c.pos(fi), "sort.Search(len(slice), !less(slice[i]))", "predicate is not !less(slice[i])")
 		}
@@ -312,7 +356,40 @@ func runC15(c *Ctx) {
 		slice := paramOf(fi, 0)
 		okLen := isLenOf(args[0], slice)
 		okSwap := false
-		if args[1].Key() == mk[0].Val.Key() {
+		if len(mk) > 0 && args[1].Key() == mk[0].Val.Key() && strings.HasSuffix(mk[0].Val.Sym, "$bound") {
+			// a method value adapter.Swap: the adapter's Swap must exchange i and j of a value wrapping the slice
+			if target := boundTarget(mk[0].SSAFn); target != nil && len(mk[0].Val.Args) == 1 {
+				recvT := mk[0].Val.Args[0]
+				wraps := false
+				if recvT.Op == "struct" {
+					for _, a := range recvT.Args {
+						if a.Key() == slice.Key() {
+							wraps = true
+						}
+					}
+				} else if recvT.Key() == slice.Key() {
+					wraps = true
+				}
+				if tfi := c.P.BySSA[target]; tfi != nil && wraps && target.Name() == "Swap" {
+					tps := c.An.PathsOf(target).Paths
+					var w *Term
+					rt := target.Params[0].Type()
+					rp := &Term{Op: "param", N: 0, Fn: target}
+					if _, isSl := rt.Underlying().(*types.Slice); isSl {
+						w = rp
+					} else if st, isSt := rt.Underlying().(*types.Struct); isSt {
+						for k := 0; k < st.NumFields(); k++ {
+							if _, isSl := st.Field(k).Type().Underlying().(*types.Slice); isSl {
+								w = &Term{Op: "field", Args: []*Term{rp}, Obj: st.Field(k).Origin(), Typ: st.Field(k).Type()}
+							}
+						}
+					}
+					if w != nil && len(tps) == 1 {
+						okSwap = isSwap(tps[0], w, &Term{Op: "param", N: 1, Fn: target}, &Term{Op: "param", N: 2, Fn: target})
+					}
+				}
+			}
+		} else if args[1].Key() == mk[0].Val.Key() {
 			cp := c.An.ClosurePaths(mk[0])
 			if cp.Unproven == "" && len(cp.Paths) == 1 {
 				iT := &Term{Op: "param", N: 0, Fn: mk[0].SSAFn}
